@@ -182,3 +182,52 @@ func scribble(v interface{}) {
 	}
 	walk(reflect.ValueOf(v), 0)
 }
+
+// touchExported rewrites, in place and with the value it already holds, everything a user of the package can reach from v
+// through exported fields, pointers, slices and interfaces (`*c.Profile = *c.Profile`). Nothing changes value; but if
+// two objects that are supposed to be distinct share such memory, two goroutines touching "their own" object write the
+// same location, which the race detector reports.
+func touchExported(v interface{}) {
+	seen := map[uintptr]bool{}
+	var walk func(x reflect.Value, depth int)
+	walk = func(x reflect.Value, depth int) {
+		if depth > 8 || !x.IsValid() {
+			return
+		}
+		switch x.Kind() {
+		case reflect.Ptr:
+			if x.IsNil() || seen[x.Pointer()] {
+				return
+			}
+			seen[x.Pointer()] = true
+			e := x.Elem()
+			if e.CanSet() {
+				tmp := reflect.New(e.Type()).Elem()
+				tmp.Set(e)
+				e.Set(tmp)
+			}
+			walk(e, depth+1)
+		case reflect.Interface:
+			if !x.IsNil() {
+				walk(x.Elem(), depth+1)
+			}
+		case reflect.Struct:
+			for i := 0; i < x.NumField(); i++ {
+				if x.Type().Field(i).PkgPath == "" { // exported
+					walk(x.Field(i), depth+1)
+				}
+			}
+		case reflect.Slice:
+			for i := 0; i < x.Len() && i < 64; i++ {
+				el := x.Index(i)
+				if el.CanSet() && el.Kind() != reflect.Ptr && el.Kind() != reflect.Interface {
+					tmp := reflect.New(el.Type()).Elem()
+					tmp.Set(el)
+					el.Set(tmp)
+				}
+				walk(el, depth+1)
+			}
+		}
+	}
+	walk(reflect.ValueOf(v), 0)
+}
